@@ -639,6 +639,22 @@ func facetRoute(args []string) error {
 						}
 					}
 					c.Query = q.Encode()
+					if (c.Method == "POST" || c.Method == "PUT" || c.Method == "PATCH") && crng.Chance(1, 3) {
+						// a form body that carries a field named like a query credential, with the verdict the
+						// query string does not have: "in: query" means the query string, nothing else
+						for _, sd := range rs.Schemes {
+							if sd.Kind != "query" {
+								continue
+							}
+							other := "good"
+							if q.Get(sd.Name) == "good" {
+								other = "bad"
+							}
+							b := url.Values{sd.Name: {other}}.Encode()
+							c.Body = &b
+							c.Headers = append(c.Headers, [2]string{"Content-Type", "application/x-www-form-urlencoded"})
+						}
+					}
 				}
 				parse := !crng.Chance(1, 10)
 				c.NoParse = !parse
@@ -728,6 +744,10 @@ func facetRoute(args []string) error {
 				}
 				c := rt.Case{Op: "serve", Pkg: r.Name, ID: fmt.Sprintf("%s#s%d.%d", r.Name, sIdx, k), Path: rs.Base + "/" + strings.Join(segs, "/"),
 					Method: Pick(crng, []string{"GET", "POST", "PUT", "DELETE", "OPTIONS", "PATCH", "HEAD"}), Mws: mws, NF: nf, Spec: sp, Cors: co, Reuse: k > 0}
+				// in every other session the later requests carry the context of the request before them
+				// (a handler replaying sub-requests, an alias middleware dispatching again): what a request
+				// is matched to must not depend on what its context has seen
+				c.Inherit = k > 0 && sIdx%2 == 1
 				if rs.HasSec {
 					c.Auth = auth
 					q := url.Values{}
@@ -752,6 +772,25 @@ func facetRoute(args []string) error {
 		}
 	}
 	cw.Flush()
+	// request bodies are not part of the model's input line; they are recorded for the replay
+	bf, _ := os.Create(filepath.Join(*out, "extras.tsv"))
+	for i := range cases {
+		ex := map[string]any{}
+		if cases[i].Body != nil {
+			ex["body"] = *cases[i].Body
+		}
+		if cases[i].Inherit {
+			ex["context"] = "the request carries the context that the previous request of this session (same case id prefix, index - 1, same API value) had when it reached the outermost middleware"
+		}
+		if cases[i].Reuse {
+			ex["session"] = "served on the API value of the previous case of this session"
+		}
+		if len(ex) > 0 {
+			eb, _ := json.Marshal(ex)
+			fmt.Fprintf(bf, "%s\t%s\n", cases[i].ID, hexs(string(eb)))
+		}
+	}
+	bf.Close()
 	obs, rerr := runBatch(bin, cases)
 	of, _ := os.Create(filepath.Join(*out, "impl.tsv"))
 	ow := bufio.NewWriterSize(of, 1<<20)
